@@ -18,6 +18,7 @@ META = {
                         'ranks above the mode product), operators and vectors, real and complex; all (start,end)',
                'thorough': 'same grid, larger subset, plus mode size 3'},
     'outside': ['that LAPACK returns orthonormal factors (contract)', 'floating-point loss of orthogonality', 'truncating calls (C04)'],
+    'tv_all': ['badly_scaled'],
     'tv_per_scenario': {'quick': 2, 'thorough': 4},
 }
 
@@ -210,3 +211,40 @@ def _default_args(ctx, shape, cplx, which):
 def ortho(ctx, shape, cplx):
     """two-sided ortho(): left sweep then right sweep, value unchanged, all cores but the first right-orthonormal"""
     _sweep(ctx, shape, cplx, 'both', None, None)
+
+
+# ------------------------------------------------------------ badly scaled cores (concrete only)
+@scenario('C03', 'badly_scaled', lambda tier: [{'which': w, 'scales': sc, 'cplx': c} for w in ('left', 'right', 'both')
+                                                for sc in ([1e-20, 1e20, 1.0], [1e-19, 1.0, 1.0], [1.0, 1e20, 1e-20]) for c in (False, True)])
+def badly_scaled(ctx, which, scales, cplx):
+    """NOT a solver verdict (floating-point scale, outside exact arithmetic): orthonormalisation does not depend on how the magnitude of the tensor is
+    distributed over the cores -- cores of size 1e-20 next to cores of size 1e+20, or a whole tensor of size 1e-19: value preserved to relative
+    accuracy, processed cores isometries, ranks kept"""
+    TT = ctx.R.TT
+    if ctx.mode == 'tv':
+        from symtt.core import SkipTV
+        raise SkipTV()
+    if ctx.sym:
+        ctx.held('scale independence is exercised by the concrete validation run of this scenario (sampling, stated in the evidence)')
+        return
+    rng = np.random.RandomState(23)
+    rk = [1, 2, 3, 1]
+    dims = [2, 3, 2]
+    cores = [(rng.randn(rk[i], dims[i], 1, rk[i + 1]) + (1j * rng.randn(rk[i], dims[i], 1, rk[i + 1]) if cplx else 0)) * scales[i] for i in range(3)]
+    ref = np.einsum('aib,bjc,ckd->ijk', cores[0][:, :, 0, :], cores[1][:, :, 0, :], cores[2][:, :, 0, :])
+    t = TT([c.copy() for c in cores])
+    if which == 'left':
+        t.ortho_left()
+    elif which == 'right':
+        t.ortho_right()
+    else:
+        t.ortho()
+    got = np.einsum('aib,bjc,ckd->ijk', t.cores[0][:, :, 0, :], t.cores[1][:, :, 0, :], t.cores[2][:, :, 0, :])
+    err = float(np.linalg.norm(got - ref) / np.linalg.norm(ref))
+    ctx.check('ortho_%s on badly scaled cores: value unchanged to relative accuracy' % which, all(a <= b for a, b in zip(t.ranks, rk)) and err <= 1e-9, detail='relative error %.3e, ranks %s' % (err, t.ranks))
+    idx = [0, 1] if which == 'left' else [1, 2]
+    for i in idx:
+        c = t.cores[i]
+        M = c.reshape(-1, c.shape[3]) if which == 'left' else c.reshape(c.shape[0], -1)
+        G = M.conj().T @ M if which == 'left' else M @ M.conj().T
+        ctx.check('ortho_%s on badly scaled cores: core %d is an isometry' % (which, i), float(np.linalg.norm(G - np.eye(G.shape[0]))) <= 1e-9)
